@@ -200,6 +200,8 @@ class Real:
         r = self.reb._check_dims_sufficient(self.shape(e), self.shape(x), self.shape(y))
         if bool(r):
             return "ok"
+        if (r.reason or "").startswith("Expand adds leading dimensions"):
+            return "fail:rank"
         m = self._DIM_RE.search(r.reason or "")
         return f"fail:{m.group(1)}" if m else "fail:?"
 
@@ -218,6 +220,8 @@ class Real:
             return "ok2" if eo is not None else "ok3"
         if reason.startswith("Input shapes are not known"):
             return "noshapes"
+        if reason.startswith("Expand adds leading dimensions"):
+            return "rank1" if const is not None else "rank2"
         m = self._DIM_RE.search(reason)
         if m:
             return ("fail1:" if const is not None else "fail2:") + m.group(1)
